@@ -436,11 +436,28 @@ var kindWeights = []struct {
 	{"alAddr", 3}, {"alSlot", 3}, {"setTransient", 4},
 }
 
+// kindList repeats every kind by its weight, interleaved round-robin: rapid prefers small
+// indices, so the head of the list must already be a fair mixture.
 var kindList = func() []string {
-	var l []string
+	order := []string{"setData", "revert", "snapshot", "setNonce", "addBalance", "create", "suicide", "setCode", "addFT", "setState",
+		"subBalance", "incNonce", "setTransient", "alSlot", "alAddr", "addLog", "addRefund", "subRefund", "removeData", "setBalance",
+		"subFT", "setFT", "prepare"}
+	left := map[string]int{}
 	for _, kw := range kindWeights {
-		for i := 0; i < kw.w; i++ {
-			l = append(l, kw.k)
+		left[kw.k] = kw.w
+	}
+	if len(left) != len(order) {
+		panic("kindList: order and weights disagree")
+	}
+	var l []string
+	for more := true; more; {
+		more = false
+		for _, k := range order {
+			if left[k] > 0 {
+				left[k]--
+				l = append(l, k)
+				more = true
+			}
 		}
 	}
 	return l
@@ -969,7 +986,7 @@ func diffTries(a, b account.AccountDatabase, rootA, rootB common.Hash) string {
 // ---------------------------------------------------------------- the property
 
 func TestRevertRestoresState(t *testing.T) {
-	stats.Check(t, 2500, 6000, func(t *rapid.T) {
+	stats.Check(t, 3000, 8000, func(t *rapid.T) {
 		spec := genBase(t)
 		main, err := buildBase(spec)
 		if err != nil {
@@ -984,8 +1001,11 @@ func TestRevertRestoresState(t *testing.T) {
 		}
 		cs := &caseStats{classes: map[string]bool{}}
 		cs.trace = append(cs.trace, "base{"+specString(spec)+"}")
-		blocks := [][]op{rapid.SliceOfN(opGen, 1, 45).Draw(t, "block0")}
-		if b1 := rapid.SliceOfN(opGen, 0, 30).Draw(t, "block1"); len(b1) > 0 {
+		// rapid's slices average minLen+max(minLen,5) elements, so the minimum is drawn too
+		min0 := rapid.SampledFrom([]int{1, 4, 8, 15, 22}).Draw(t, "minLen0")
+		min1 := rapid.SampledFrom([]int{0, 0, 1, 8, 15}).Draw(t, "minLen1")
+		blocks := [][]op{rapid.SliceOfN(opGen, min0, 45).Draw(t, "block0")}
+		if b1 := rapid.SliceOfN(opGen, min1, 45).Draw(t, "block1"); len(b1) > 0 {
 			blocks = append(blocks, b1)
 		}
 		nBlocks := len(blocks)
@@ -1058,4 +1078,55 @@ func TestProbeFC04a(t *testing.T) {
 	stats.Probe(t, findingA, "C04", present,
 		fmt.Sprintf("CreateAccount(A); Snapshot; SetData(A,k,v); RevertToSnapshot: Empty(A) %v -> %v, IntermediateRoot(true) %s vs %s when the write is never executed "+
 			"(storageChange.undo leaves a nil entry in cachedStorage/dirtyStorage, accountObject.empty() counts map entries)", b, a, rootWith.Hex()[:12], rootWithout.Hex()[:12]))
+}
+
+func unreadStorageOnlyBase(t *testing.T) *world {
+	spec := baseSpec{Accts: make([]baseAcct, nUsers)}
+	spec.Accts[0].Class = clHiddenOnly // nonce 0, no code, one storage slot that the block never reads
+	w, err := buildBase(spec)
+	if err != nil {
+		t.Fatalf("base: %v", err)
+	}
+	return w
+}
+
+// TestProbeFC04b: a reverted mutation leaves the account in accountObjectsDirty; if the account
+// reports empty() (nonce 0, no code, storage not yet read) Finalise(true) deletes it.
+func TestProbeFC04b(t *testing.T) {
+	a := users[0]
+	w1 := unreadStorageOnlyBase(t)
+	id := w1.st.Snapshot()
+	w1.st.IncreaseNonce(a)
+	w1.st.RevertToSnapshot(id)
+	with := w1.st.IntermediateRoot(true)
+	c1, _ := w1.st.Commit(true)
+	w2 := unreadStorageOnlyBase(t)
+	without := w2.st.IntermediateRoot(true)
+	c2, _ := w2.st.Commit(true)
+	stats.Probe(t, findingB, "C04", with != without,
+		fmt.Sprintf("account A loaded with nonce 0, no code, one storage slot (not read in this block): Snapshot; IncreaseNonce(A); RevertToSnapshot; IntermediateRoot(true) = %s, "+
+			"without the reverted call %s; %s (the revert does not take A out of accountObjectsDirty, accountObject.empty() ignores unread storage, Finalise(true) deletes A)",
+			with.Hex()[:12], without.Hex()[:12], diffTries(w1.adb, w2.adb, c1, c2)))
+}
+
+// TestProbeFC04c: touchChange.undo deletes the dirty mark but the object's onDirty callback was
+// consumed by touch(), so later mutations of the object are never written to the trie.
+func TestProbeFC04c(t *testing.T) {
+	a := users[0]
+	w1 := unreadStorageOnlyBase(t)
+	id := w1.st.Snapshot()
+	w1.st.AddFT(a, ftName, big.NewInt(0))
+	w1.st.RevertToSnapshot(id)
+	w1.st.SetNonce(a, 7)
+	seen := w1.st.GetNonce(a)
+	with := w1.st.IntermediateRoot(true)
+	c1, _ := w1.st.Commit(true)
+	w2 := unreadStorageOnlyBase(t)
+	w2.st.SetNonce(a, 7)
+	without := w2.st.IntermediateRoot(true)
+	c2, _ := w2.st.Commit(true)
+	stats.Probe(t, findingC, "C04", with != without,
+		fmt.Sprintf("account A loaded with nonce 0, no code, unread storage: Snapshot; AddFT(A,%q,0); RevertToSnapshot; SetNonce(A,7): GetNonce(A)=%d but IntermediateRoot(true) = %s, "+
+			"without the reverted call %s; %s (touchChange.undo removes A from accountObjectsDirty while A.onDirty stays nil, so the later write is never flushed)",
+			ftName, seen, with.Hex()[:12], without.Hex()[:12], diffTries(w1.adb, w2.adb, c1, c2)))
 }
